@@ -1867,7 +1867,9 @@ func (a *Agent) TaskPrepare(Command int, Info any, Message *map[string]string, C
 				/* generate some random socket id */
 				SocketId = int32(rand.Uint32())
 
+				a.SocksSvrMtx.Lock()
 				s.Clients = append(s.Clients, SocketId)
+				a.SocksSvrMtx.Unlock()
 
 				a.SocksClientAdd(SocketId, conn, SocksHeader.ATYP, SocksHeader.IpDomain, SocksHeader.Port)
 
@@ -1893,7 +1895,11 @@ func (a *Agent) TaskPrepare(Command int, Info any, Message *map[string]string, C
 						/* check if the connection is still up */
 						if client := a.SocksClientGet(SocketId); client != nil {
 
-							if !client.Connected {
+							a.SocksCliMtx.Lock()
+							connected := client.Connected
+							a.SocksCliMtx.Unlock()
+
+							if !connected {
 								/* if we are still not connected then skip */
 								continue
 							}
